@@ -154,7 +154,7 @@ class Ctx(object):
             if self.strmode == "z3":
                 return z3.StringSort()
             if self.scope is not None:
-                return self._finite_sort("Str", max(self.scope, 2) + 6)
+                return self._finite_sort("Str", max(self.scope, 2) + 24)
             return z3.DeclareSort("Str")
         if ty is EXC:
             if self.scope is not None:
@@ -705,6 +705,8 @@ def to_py(v):
         return V(PY, P.PStr(v.t))
     if isinstance(v.ty, Opt):
         return V(PY, z3.If(ois_none(v), P.PNone, to_py(oval(v)).t))
+    if v.ty is REAL:
+        return V(PY, P.PObj(CTX.func("float_obj", z3.RealSort(), z3.IntSort())(v.t)))
     raise OutsideSubset("cannot turn %r into a dynamic value" % (v.ty,))
 
 
@@ -879,7 +881,13 @@ def str_endswith(s, p):
 def str_concat(a, b):
     if CTX.strmode == "z3":
         return V(STR, z3.Concat(a.t, b.t))
+    first = "str_concat" not in CTX._funcs
     f = CTX.func("str_concat", CTX.sort(STR), CTX.sort(STR), CTX.sort(STR))
+    if first and CTX.scope is None:
+        x = z3.Const("cc!a", CTX.sort(STR))
+        y = z3.Const("cc!b", CTX.sort(STR))
+        e = CTX.strlit("")
+        CTX.axioms.append(z3.ForAll([x, y], (f(x, y) == e) == z3.And(x == e, y == e)))
     return V(STR, f(a.t, b.t))
 
 
